@@ -200,6 +200,14 @@ func ByteIn(c byte, spec string) bool {
 
 func PermuteMaps(on bool) {}
 
+// Unsupported ends the current symbolic path as "not encodable" (never a pass).
+func Unsupported(msg string) { panic("zzverif: unsupported natively: " + msg) }
+
+var replayEnd []func()
+
+// AtReplayEnd registers clean-up for the current native replay record.
+func AtReplayEnd(f func()) { replayEnd = append(replayEnd, f) }
+
 // Fresh returns an unconstrained byte (symbolic) / 0 (native).
 func Fresh(prefix string) byte { return 0 }
 
@@ -253,5 +261,9 @@ func RunReplays(harnesses map[string]func()) {
 		j, _ := json.Marshal(out)
 		fmt.Printf("REPLAY %s\n", j)
 		cur = nil
+		for _, f := range replayEnd {
+			f()
+		}
+		replayEnd = nil
 	}
 }
